@@ -987,6 +987,10 @@ func (in *Interp) lookupMethod(iv Iface, m *types.Func) FuncV {
 			s := StrOf("<" + iv.T.String() + ">")
 			return FuncV{Native: func(in *Interp, args []Value) Value { return s }}
 		}
+		if h, ok := opaqueMethods[iv.T.String()+"."+m.Name()]; ok {
+			// engine-modelled object (intr_*.go), e.g. the FileInfo of the model file system
+			return FuncV{Native: h}
+		}
 		panic(in.inconclusive("method %s on opaque value %s", m.Name(), iv.T))
 	}
 	fn := in.Prog.LookupMethod(iv.T, m.Pkg(), m.Name())
